@@ -390,6 +390,40 @@ func Parse(path string, src []byte) (*Parsed, error) {
 	return &Parsed{Path: path, Src: src, Fset: fset, File: f}, nil
 }
 
+// ParseMode parses src under the given file name (its extension selects script / classfile
+// parsing) and parser mode.
+func ParseMode(path string, src []byte, mode parser.Mode) (p *Parsed, err error) {
+	defer func() {
+		if e := recover(); e != nil {
+			p, err = nil, fmt.Errorf("parser panic: %v", e)
+		}
+	}()
+	fset := token.NewFileSet()
+	f, err := parser.ParseEntry(fset, path, src, parser.Config{Mode: mode})
+	if err != nil {
+		return nil, err
+	}
+	if f == nil {
+		return nil, fmt.Errorf("nil file")
+	}
+	return &Parsed{Path: path, Src: src, Fset: fset, File: f}, nil
+}
+
+// ParseModes: the (extension, mode) combinations sources are parsed in.
+var ParseModes = []struct {
+	Ext  string
+	Mode parser.Mode
+}{
+	{".xgo", parser.ParseComments | parser.AllErrors},
+	{".xgo", 0},
+	{".xgo", parser.DeclarationErrors},
+	{".gox", parser.ParseComments},
+	{".go", parser.ParseComments | parser.ParseGoAsGoPlus},
+}
+
+// EmbeddedSource returns the text of an embedded corpus file.
+func EmbeddedSource(name string) ([]byte, error) { return embedded.ReadFile("corpus/" + name) }
+
 // SafeParse is Parse with a recover (a parser panic is reported as an error).
 func SafeParse(path string, src []byte) (p *Parsed, err error) {
 	defer func() {
